@@ -41,6 +41,9 @@ def configs(tier, seed):
                 for (h, wd) in shapes:
                     out.append(dict(wave=w, mode=mode, J=J, H=h, W=wd, B=1, C=1))
     out.append(dict(wave='db2', mode='periodization', J=2, H=8, W=4, B=2, C=3))
+    for ctx in D.CTXS:
+        for mode in MODES:
+            out.append(dict(wave='db2', mode=mode, J=2, H=8, W=4, B=2, C=2, ctx=ctx))
     return out
 
 
@@ -50,7 +53,7 @@ def _case(cfg):
 
     def impl(pw, ts):
         SWT = pw.dwt.transform2d.SWTForward
-        ys = SWT(J=cfg['J'], wave=cfg['wave'], mode=cfg['mode'])(ts[0])
+        ys = D.call_ctx(pw, cfg, lambda a: SWT(J=cfg['J'], wave=cfg['wave'], mode=cfg['mode'])(a[0]), ts)
         if not isinstance(ys, (list, tuple)):
             raise TypeError('SWTForward did not return a list')
         return [('level%d' % (j + 1), y) for j, y in enumerate(ys)]
